@@ -221,9 +221,11 @@ def GClass.nested : GClass → Bool
   | .module | .file | .type | .call => false
   | _ => true
 
-/-- `CallGraph.add_node` tests `p not in hop_nodes` instead of `p not in self.added` -/
-def GClass.filterAdded : GClass → Bool
-  | .call => false
+/-- `CallGraph.add_node` tests `p not in hop_nodes` instead of `p not in self.added`
+    (`fx = false`, the code as it is); `fx = true` is the code with fixes/C13-callgraph-count.diff.
+    The harness decides at run time which of the two the working tree is. -/
+def GClass.filterAdded (fx : Bool) : GClass → Bool
+  | .call => fx
   | _ => true
 
 /-! ## `add_nodes` / `add_to_graph` -/
@@ -287,15 +289,15 @@ def runGraph (cfg : Cfg) (roots : List Node) : GState :=
 
 def maxList (d : Nat) (l : List Nat) : Nat := l.foldl max d
 
-def cfgOf (tab : Table) (nd : NodeData) (c : GClass) (roots : List Node) : Cfg :=
+def cfgOf (fx : Bool) (tab : Table) (nd : NodeData) (c : GClass) (roots : List Node) : Cfg :=
   { succ := succOf tab nd c
     nested := c.nested
-    filterAdded := c.filterAdded
+    filterAdded := c.filterAdded fx
     maxNesting := maxList 0 (roots.map fun r => (ent tab r).maxDepth)
     maxNodes := maxList 1 (roots.map fun r => (ent tab r).maxNodes) }
 
-def graphOf (tab : Table) (nd : NodeData) (c : GClass) (roots : List Node) : GState :=
-  runGraph (cfgOf tab nd c roots) roots
+def graphOf (fx : Bool) (tab : Table) (nd : NodeData) (c : GClass) (roots : List Node) : GState :=
+  runGraph (cfgOf fx tab nd c roots) roots
 
 /-- `GraphManager.register`: only entities whose metadata say `graph: true` -/
 def registered (tab : Table) (order : List Node) : List Node :=
@@ -306,7 +308,7 @@ def createFuel (tab : Table) : Nat :=
       + e.modprocs.length + e.deps.length + 4) * (tab.length + 1)).sum + tab.length + 4
 
 /-- per-entity graphs of one registered entity -/
-def entityGraphs (tab : Table) (nd : NodeData) (e : Node) : List (Node × GClass × GState) :=
+def entityGraphs (fx : Bool) (tab : Table) (nd : NodeData) (e : Node) : List (Node × GClass × GState) :=
   let cls : List GClass :=
     match (ent tab e).kind with
     | .mod | .submod => [.uses, .usedBy]
@@ -316,7 +318,7 @@ def entityGraphs (tab : Table) (nd : NodeData) (e : Node) : List (Node × GClass
     | .file => [.afferent, .efferent]
     | .block => [.uses]
     | .ext => []
-  cls.map fun c => (e, c, graphOf tab nd c [e])
+  cls.map fun c => (e, c, graphOf fx tab nd c [e])
 
 structure AllGraphs where
   ok : Bool := true
@@ -336,8 +338,8 @@ def bigger (per : List (Node × GClass × GState)) (e : Node) (c : GClass) : Boo
   per.any fun (x, d, st) => x == e && d == c && st.added.length > 1
 
 /-- all per-entity graphs (`graph_all`, first loop) -/
-def perEntityOf (tab : Table) (nd : NodeData) (regs : List Node) : List (Node × GClass × GState) :=
-  regs.flatMap (entityGraphs tab nd)
+def perEntityOf (fx : Bool) (tab : Table) (nd : NodeData) (regs : List Node) : List (Node × GClass × GState) :=
+  regs.flatMap (entityGraphs fx tab nd)
 
 /-- roots of the project-wide module graph (`usenodes`) -/
 def useRootsOf (tab : Table) (regs : List Node) (per : List (Node × GClass × GState)) : List Node :=
@@ -358,22 +360,22 @@ def callRootsOf (tab : Table) (regs : List Node) (per : List (Node × GClass × 
   dedup (procs ++ internalP ++ boundP) ++ (regs.filter (isKind tab .prog)).filter (bigger per · .calls)
 
 /-- `graph_all` -/
-def graphAll (tab : Table) (order : List Node) : AllGraphs :=
+def graphAll (fx : Bool) (tab : Table) (order : List Node) : AllGraphs :=
   let regs := registered tab order
   match create tab (createFuel tab + regs.length) regs {} with
   | none => { ok := false }
   | some nd1 =>
-    let per := perEntityOf tab nd1 regs
+    let per := perEntityOf fx tab nd1 regs
     let useRoots := useRootsOf tab regs per
     let callRoots := callRootsOf tab regs per
     match create tab (createFuel tab + callRoots.length) callRoots nd1 with
     | none => { ok := false }
     | some nd2 =>
       { perEntity := per
-        useGraph := graphOf tab nd1 .module useRoots
-        typeGraph := graphOf tab nd1 .type (regs.filter (isKind tab .type))
-        callGraph := graphOf tab nd2 .call callRoots
-        fileGraph := graphOf tab nd2 .file (regs.filter (isKind tab .file))
+        useGraph := graphOf fx tab nd1 .module useRoots
+        typeGraph := graphOf fx tab nd1 .type (regs.filter (isKind tab .type))
+        callGraph := graphOf fx tab nd2 .call callRoots
+        fileGraph := graphOf fx tab nd2 .file (regs.filter (isKind tab .file))
         useRoots := useRoots, callRoots := callRoots, nd1 := nd1, nd2 := nd2 }
 
 end Ford.Graph
